@@ -87,6 +87,7 @@ type Found struct {
 	V        Violation `json:"violation"`
 	Scenario *Scenario `json:"scenario"`
 	RunIdx   uint64    `json:"run"`
+	From     uint64    `json:"from"` // first run index of the worker process that found it
 }
 
 type WorkerOut struct {
@@ -219,7 +220,7 @@ func workerMain(args []string) {
 			if v.Sc != nil {
 				fsc = v.Sc
 			}
-			wo.Found = append(wo.Found, Found{V: v, Scenario: fsc, RunIdx: i})
+			wo.Found = append(wo.Found, Found{V: v, Scenario: fsc, RunIdx: i, From: from})
 		}
 		// determinism self-test: everything a run contributes is folded into one number
 		runDig = mix64(runDig ^ uint64(st.Steps) ^ uint64(st.Trivial)<<20 ^ uint64(len(st.Shapes))<<40 ^ uint64(len(vs))<<60)
@@ -437,7 +438,7 @@ func checkMain(id, tier string) int {
 		if nviol > 5 {
 			continue
 		}
-		path := reportViolation(c, f)
+		path := reportViolation(c, f, base, tier)
 		fmt.Printf("VIOLATION property=%s replay=%s\n", id, path)
 		fmt.Printf("  rule=%s signature=%s run=%d seed=%d\n  %s\n", f.V.Rule, f.V.Sig, f.RunIdx, f.Scenario.Seed, f.V.Msg)
 	}
@@ -493,9 +494,20 @@ type Replay struct {
 	Seed     uint64    `json:"seed"`
 	Message  string    `json:"message"`
 	Scenario *Scenario `json:"scenario"`
+	// Prelude: the violation depends on state that earlier runs left in the worker process
+	// (package-level caches, shared instances): the replay first re-executes runs
+	// From..To (inclusive) of that worker - a pure function of (base, property, index).
+	Prelude *Prelude `json:"prelude,omitempty"`
 }
 
-func reportViolation(c *Check, f Found) string {
+type Prelude struct {
+	Base uint64 `json:"base"`
+	Tier string `json:"tier"`
+	From uint64 `json:"from"`
+	To   uint64 `json:"to"`
+}
+
+func reportViolation(c *Check, f Found, base uint64, tier string) string {
 	sc := f.Scenario
 	v := f.V
 	if v.Sig != "worker-death" {
@@ -508,7 +520,38 @@ func reportViolation(c *Check, f Found) string {
 	path := filepath.Join(dir, fmt.Sprintf("%s-%d-%08x.json", c.ID, f.Scenario.Seed, uint32(h64([]byte(v.Rule+"|"+v.Sig)))))
 	b, _ := json.MarshalIndent(&rp, "", " ")
 	os.WriteFile(path, b, 0o644)
+	if v.Sig != "worker-death" && !strings.HasPrefix(v.Rule, "C17.race") && !replayReproduces(path) {
+		// The minimiser evaluates its candidates in one process. A violation that depends on
+		// state an earlier candidate left in that process (package-level caches, shared
+		// precompile instances) survives the removal of the very operations that created the
+		// state; such a result does not replay in a fresh process. Keep the scenario as found.
+		rp.Scenario = f.Scenario
+		rp.Message = f.V.Msg + " [not minimised: the minimised scenario did not reproduce in a fresh process]"
+		b, _ = json.MarshalIndent(&rp, "", " ")
+		os.WriteFile(path, b, 0o644)
+		if !replayReproduces(path) {
+			rp.Prelude = &Prelude{Base: base, Tier: tier, From: f.From, To: f.RunIdx}
+			rp.Message = f.V.Msg + fmt.Sprintf(" [depends on state left in the process by earlier runs: the replay re-executes runs %d..%d of this check first]", f.From, f.RunIdx)
+			b, _ = json.MarshalIndent(&rp, "", " ")
+			os.WriteFile(path, b, 0o644)
+		}
+	}
 	return path
+}
+
+// replayReproduces runs `artsim replay <path>` in a fresh process.
+func replayReproduces(path string) bool {
+	self, err := os.Executable()
+	if err != nil {
+		return true
+	}
+	cmd := exec.Command(self, "replay", path)
+	cmd.Env = append(os.Environ(), "GOMAXPROCS=4")
+	err = cmd.Run()
+	if ee, ok := err.(*exec.ExitError); ok {
+		return ee.ExitCode() == 1
+	}
+	return false
 }
 
 func minimiseInChild(c *Check, sc *Scenario, v Violation) (*Scenario, Violation) {
@@ -612,6 +655,14 @@ func replayMain(path string) int {
 		if gb := envInt("VERIF_WORKER_AS_GB", 10); gb > 0 {
 			lim := syscall.Rlimit{Cur: uint64(gb) << 30, Max: uint64(gb) << 30}
 			syscall.Setrlimit(syscall.RLIMIT_AS, &lim)
+		}
+	}
+	if p := rp.Prelude; p != nil {
+		if c.Shared != nil {
+			c.Shared(p.Base)
+		}
+		for j := p.From; j <= p.To; j++ {
+			runOne(c, c.Gen(seedFor(p.Base, c.ID, j), p.Tier), NewStats())
 		}
 	}
 	vs := runOne(c, rp.Scenario, NewStats())
